@@ -293,7 +293,7 @@ def r_order(c):
             "R01-ORDER", "codegen.preprocess", "keyed-topological-order-of-outputs",
             m.loc(m.module_of(fd), fd),
             "the order in which outputs are computed is not a keyed topological order")
-    g = m.func(LC + ".generate_loopy")
+    g = m.inlined(m.func(LC + ".generate_loopy"))     # a storing helper is seen through
     loops = [l for l in ast.walk(g) if isinstance(l, ast.For)
              and any("add_store" in ast.unparse(s) for s in l.body)]
     co = find(g, "$co = $pp.compute_order")
